@@ -5,7 +5,11 @@ import "verif/harness/pbt"
 // Bounded-exhaustive part of (a): for two back-to-back small messages, EVERY stream octet as fault
 // position (EOF and error), with the writer's octets delivered whole, one octet at a time, or in
 // exactly two segments split at EVERY offset, through every reading API (client side) and through
-// the server's read path. The finite space is stated by the loops below.
+// the server's read path. Round 9, client side: the same two messages with the reading calls MIXED on
+// the one Conn - every ordered pair of different calls (first message with one, second with the
+// other, the read after the last with the first again), every plan without fault, and every fault
+// position under the plans "whole stream in one segment" and "every octet alone". The finite space
+// is stated by the loops below.
 
 var enumSizes = [][2]int{{12, 12}, {12, 13}, {13, 32}, {33, 12}, {19, 31}}
 
@@ -37,13 +41,47 @@ func eachSmallFraming(dirs []string, apis map[string][]string, emit func(Framing
 	}
 }
 
+func eachMixedRead(emit func(Framing)) {
+	for _, first := range readAPIs {
+		for _, second := range readAPIs {
+			if first == second {
+				continue
+			}
+			for _, sz := range enumSizes {
+				total := 2 + sz[0] + 2 + sz[1]
+				plans := [][]int{nil, {1}}
+				for k := 1; k < total; k++ {
+					plans = append(plans, []int{k, 0})
+				}
+				for pi, plan := range plans {
+					base := Framing{Dir: "client-read", API: "mixed", APIs: []string{first, second}, Sizes: []int{sz[0], sz[1]}, Seeds: []byte{3, 200}, OneWrite: true, Chunks: plan}
+					emit(base)
+					if pi > 1 {
+						continue
+					}
+					for k := 0; k <= total; k++ {
+						for _, f := range []string{"eof", "err"} {
+							c := base
+							c.Fault, c.FaultAt, c.FaultSide = f, k, "read"
+							emit(c)
+						}
+					}
+				}
+			}
+		}
+	}
+}
+
 func init() {
 	apis := map[string][]string{
 		"client-read": {"ReadMsg", "ReadMsgHeader", "ReadMsgHeaderHdr", "Read"},
 		"server":      {"Write", "WriteMsg"},
 	}
 	pbt.RegisterEnum(pbt.Enum[Framing]{Name: "framing-enum-client", Exhaustive: true, Check: checkFraming,
-		Each: func(emit func(Framing)) { eachSmallFraming([]string{"client-read"}, apis, emit) }})
+		Each: func(emit func(Framing)) {
+			eachSmallFraming([]string{"client-read"}, apis, emit)
+			eachMixedRead(emit)
+		}})
 	pbt.RegisterEnum(pbt.Enum[Framing]{Name: "framing-enum-server", Tiers: "thorough", Exhaustive: true, Check: checkFraming,
 		Each: func(emit func(Framing)) { eachSmallFraming([]string{"server"}, apis, emit) }})
 }
